@@ -137,6 +137,19 @@ class Sym:
         name = callee_name(t)
         orig = callee_orig(t)
         if name is None:
+            # a call through a function value: when the value is known (a closure or fn item handed down
+            # as an argument, seen through the parameter environment) and its body is straight-line, the
+            # call is that body applied to the arguments
+            cop = t["callee"].get("op") if isinstance(t.get("callee"), dict) else None
+            if cop is not None and inl < 3:
+                ct = strip_transparent(self.operand(body, cop, env, depth, inl, visiting))
+                if isinstance(ct, tuple) and ct and ct[0] in ("closure", "fn") and ct[1] in self.prog.bodies:
+                    cb = self.prog.bodies[ct[1]]
+                    if straight_line(cb):
+                        cenv = ([ct] + list(args)) if ct[0] == "closure" else list(args)
+                        r = self.local(cb, 0, env=cenv, depth=depth, inl=inl + 1, visiting=visiting)
+                        if not _has_unknown(r):
+                            return r
             return ("call", "<indirect>", args)
         if t["callee"].get("res") in ("unresolved", "virtual"):
             return ("call", orig, args)
